@@ -84,6 +84,8 @@ def _stream_worker(job):
                 if idx >= first_end:
                     seen.setdefault(("C09", "further_pass_is_executable_repeat"), "%s %s %s" % (p, c, d))
                     break
+    for (label, d) in r.get("assumption", []):
+        seen[("ASSUMED", "assumed_operation_shape:" + label)] = d
     return (spec, [(p, c, d) for (p, c), d in seen.items()], r["stats"],
             r.get("n_actions", 0), nontrivial, r["stream"][:12])
 
@@ -122,6 +124,13 @@ def stream_box(tier, seed, props):
         for (p, c, d) in viol:
             if p in res:
                 res[p]["violations"].append(_viol(p, c, spec, d))
+            elif p == "ASSUMED":
+                # an assumed contract of the VC layer does not hold on this input: not a violation of
+                # the property, but the proofs resting on it do not apply -> undecided
+                for q in props:
+                    v = _viol(q, c, spec, d)
+                    v["assumption"] = True
+                    res[q]["violations"].append(v)
     return res
 
 
